@@ -3,7 +3,7 @@
 cd /verif
 for d in seeded/C*_m*; do
   m=$(basename $d); p=${m%_*}
-  out=$(tools/try_mutant.sh $p $d/patch.diff 2>&1)
+  out=$(tools/try_mutant.sh $p $d/patch.diff $SWEEP_ARGS 2>&1)
   rc=$(echo "$out" | grep -o 'exit=[0-9]*' | tail -1)
   keys=$(echo "$out" | grep VIOLATION | sed 's/.*replay=\/verif\/replays\///; s/-[0-9]*\.json//' | tr '\n' ' ')
   disch=$(echo "$out" | grep -o 'obligations=[0-9]* discharged=[0-9]*' | tail -1)
